@@ -17,10 +17,8 @@ Definition selector_rules : list string :=
   ["Selector"; "JsonPointerSegment"; "Identifier"; "SelectorOrIndex"; "IndexExpression"; "StringLiteral"].
 Definition match_rules : list string := ["Match"; "Value"; "NumberLiteral"; "StringLiteral"].
 
-Lemma selector_actions_pinned : about selector_rules go_actions = about selector_rules pinned_actions.
-Proof. reflexivity. Qed.
-Lemma match_actions_pinned : about match_rules go_actions = about match_rules pinned_actions.
-Proof. reflexivity. Qed.
+(* the two ties themselves are in ActionsPinSel.v and ActionsPinMatch.v, one file each, so that an edit to a selector action does not
+   stop the statement file of C04 and an edit to a match action not that of C07 (fourth batch of harmless refactors, refactor54) *)
 (* the restrictions are not empty: they keep 12 and 21 of the 50 blocks *)
 Lemma selector_actions_count : List.length (about selector_rules pinned_actions) = 12.
 Proof. reflexivity. Qed.
